@@ -192,6 +192,91 @@ def gen_alloc_cases(rng, n, big, faults):
     return lines, stats
 
 
+def gen_enc_cases(rng, n, big):
+    """C03: well-formed messages to be packed by protobuf-c (the oracle re-decodes with the reference)"""
+    lines, stats = [], {'schemas': 0, 'msgs': 0}
+    while stats['msgs'] < n:
+        sch = rand_schema(rng, big=big, allow_generic=False)
+        lines += sch.lines()
+        stats['schemas'] += 1
+        for _ in range(rng.choice([4, 8])):
+            ty = rng.randrange(len(sch.msgs))
+            m = rand_msg(rng, sch, ty, big=big)
+            lines.append('pack ' + lit(sch, m))
+            stats['msgs'] += 1
+    return lines, stats
+
+
+def gen_valid_cases(rng, n, big, merge=False):
+    """C04 (merge=False): re-encodings that differ from the canonical one in order, packedness, varint padding,
+    stale scalar occurrences, empty packed records, interleaved unknown fields.
+    C10 (merge=True): additionally sub-messages split over several occurrences and several oneof members in sequence."""
+    lines, stats = [], {'schemas': 0, 'encodings': 0, 'canonical': 0, 'split': 0}
+    while stats['encodings'] < n:
+        if merge:
+            # bias towards embedded messages (incl. inside oneofs) so that there is something to merge
+            sch = rand_schema(rng, big=big, types=[T_MESSAGE] * 6 + list(range(17)), nmsgs=rng.choice([2, 3, 3]))
+        else:
+            sch = rand_schema(rng, big=big)
+        lines += sch.lines()
+        stats['schemas'] += 1
+        for _ in range(rng.choice([3, 6])):
+            ty = rng.randrange(len(sch.msgs))
+            m = rand_msg(rng, sch, ty, big=False)
+            if not merge:
+                lines.append('unpack %d X%s' % (ty, encode(sch, m).hex()))
+                stats['canonical'] += 1
+                stats['encodings'] += 1
+            for _ in range(3):
+                knobs = {'pad': rng.random() < 0.6, 'flip_packed': rng.random() < 0.5, 'split_packed': rng.random() < 0.5,
+                         'stale': rng.random() < 0.5, 'shuffle': rng.random() < 0.6, 'empty_packed': rng.random() < 0.4}
+                if merge:
+                    knobs['split_msg'] = True
+                    knobs['multi_oneof'] = rng.random() < 0.7
+                b = encode(sch, m, rng, knobs)
+                lines.append('unpack %d X%s' % (ty, b.hex()))
+                stats['encodings'] += 1
+    return lines, stats
+
+
+def old_schema(rng, sch):
+    """old = new with an arbitrary subset of fields removed (per message type)"""
+    import copy
+    old = copy.deepcopy(sch)
+    for m in old.msgs:
+        keep = [f for f in m.fields if rng.random() < 0.6]
+        # group numbering must stay dense
+        groups = sorted({f.group for f in keep if f.group >= 0})
+        remap = {g: i for i, g in enumerate(groups)}
+        for f in keep:
+            if f.group >= 0:
+                f.group = remap[f.group]
+        m.fields = keep
+        m.ngroups = len(groups)
+    return old
+
+
+def gen_compat_cases(rng, n, big):
+    """C09: `#new` lines carry the new schema and the original message; the ops run under the OLD schema"""
+    lines, stats = [], {'pairs': 0, 'msgs': 0, 'removed_fields': 0}
+    while stats['msgs'] < n:
+        new = rand_schema(rng, big=big, allow_generic=False)
+        old = old_schema(rng, new)
+        stats['pairs'] += 1
+        stats['removed_fields'] += sum(len(a.fields) - len(b.fields) for a, b in zip(new.msgs, old.msgs))
+        lines += old.lines()
+        for _ in range(rng.choice([4, 8])):
+            ty = rng.randrange(len(new.msgs))
+            m = rand_msg(rng, new, ty, big=False)
+            knobs = {'pad': rng.random() < 0.4, 'flip_packed': rng.random() < 0.4, 'shuffle': rng.random() < 0.5,
+                     'split_packed': rng.random() < 0.3}
+            b = encode(new, m, rng, knobs)
+            lines.append('#new ' + json.dumps({'schema': new.lines(), 'lit': lit(new, m)}))
+            lines.append('acc %d X%s' % (ty, b.hex()))
+            stats['msgs'] += 1
+    return lines, stats
+
+
 def u_bounds(w):
     return pbgen.B32 if w == 32 else pbgen.B64
 
@@ -298,6 +383,14 @@ def main():
         lines, stats = gen_wire_cases(rng, n, big)
     elif kind == 'req':
         lines, stats = gen_req_cases(rng, n, big)
+    elif kind == 'enc':
+        lines, stats = gen_enc_cases(rng, n, big)
+    elif kind == 'valid':
+        lines, stats = gen_valid_cases(rng, n, big, False)
+    elif kind == 'merge':
+        lines, stats = gen_valid_cases(rng, n, big, True)
+    elif kind == 'compat':
+        lines, stats = gen_compat_cases(rng, n, big)
     elif kind == 'alloc':
         lines, stats = gen_alloc_cases(rng, n, big, False)
     elif kind == 'fault':
